@@ -52,21 +52,31 @@ func genVerify(r *rand.Rand, big bool) instance {
 		in.N = 1 + r.Intn(64)
 	}
 	equal := r.Intn(2) == 0
+	runs := r.Intn(3) == 0 // runs of identical consecutive chunks (zero sections, repeated content)
 	pos := 0
+	var prev []byte
 	for j := 0; j < k; j++ {
 		sz := 24 + r.Intn(40)
 		if equal {
 			sz = 32
 		}
 		b := make([]byte, sz)
-		r.Read(b)
+		if runs && prev != nil && r.Intn(10) < 6 {
+			b = append([]byte(nil), prev...)
+			sz = len(b)
+		} else if !(runs && r.Intn(4) == 0) { // otherwise: a block of zeros
+			r.Read(b)
+		}
+		prev = b
 		in.Data = append(in.Data, b...)
 		in.Chunks = append(in.Chunks, [2]int{pos, sz})
 		pos += sz
 	}
 	for _, c := range in.Chunks {
 		id := sum(in.Data[c[0] : c[0]+c[1]])
-		in.IDNum[id] = len(in.IDNum) + 1
+		if _, ok := in.IDNum[id]; !ok {
+			in.IDNum[id] = len(in.IDNum) + 1
+		}
 		in.IDs = append(in.IDs, id)
 	}
 	in.File = append([]byte(nil), in.Data...)
@@ -95,6 +105,7 @@ func genVerify(r *rand.Rand, big bool) instance {
 		in.File = append(in.File, make([]byte, 1+r.Intn(70))...)
 		in.Valid, in.Damage = false, "extended"
 	}
+	in.Valid = bytes.Equal(in.File, in.Data) // swapping two identical chunks changes nothing
 	return in
 }
 
